@@ -339,6 +339,14 @@ class BaseDOELibrary(BaseDriverLibrary, Serializable):
         Returns:
             The output value and the Jacobian value.
         """
+        functions = self.__output_functions or self.__jacobian_functions
+        if functions and functions[0].expects_normalized_inputs:
+            # The samples are expressed in the design space
+            # while the functions have been preprocessed to take normalized inputs
+            # (normalize_design_space=True,
+            # or a previous driver execution with a normalized design space).
+            input_value = self._problem.design_space.normalize_vect(input_value)
+
         return self._problem.evaluate_functions(
             design_vector=input_value,
             preprocess_design_vector=False,
